@@ -217,6 +217,22 @@ def column_quad(model, g, epsrel=1e-11):
     return 100.0 * math.fsum(total), 100.0 * err
 
 
+def graze_jump(model, g, window=1e-6):
+    """
+    Sum of the density jumps of the shells that the chord touches at its closest
+    approach within `window` metres: a sample taken there falls on either side of the
+    shell boundary depending on rounding (or on a graze of < 1 micrometre).
+    """
+    if not g["enters"] or not (g["a"] < g["tc"] < g["t_out"]):
+        return 0.0
+    m = MODELS[model]
+    tot = 0.0
+    for i, rs in enumerate(m["radii"][:-1]):
+        if abs(g["b"] - rs) <= window:
+            tot += abs(shell_density(model, i, rs) - shell_density(model, i + 1, rs))
+    return tot
+
+
 def variation(model, g):
     """
     Total variation of the density seen along the ray from t = 0 to just past
@@ -251,4 +267,7 @@ def variation(model, g):
         tv += sum(abs(y - x) for x, y in zip(vals[:-1], vals[1:]))
         prev_end = vals[-1]
     tv += abs(prev_end)       # exit drop
-    return tv, rho_max
+    # a shell touched within rounding: the excursion across it and back may or may not
+    # be seen by a sample
+    gj = graze_jump(model, g)
+    return tv + 2.0 * gj, rho_max + gj
